@@ -1,6 +1,6 @@
-(** * C07 — the parser builds the tree the documented grammar dictates (partial). *)
-From PQL Require Import Model.Parser Proofs.TableFacts.
-From Coq Require Import String.
+(** * C07 — the parser builds the tree the documented grammar dictates. *)
+From PQL Require Import Model.Parser Spec.Grammar Proofs.TableFacts Proofs.ParserSoundStmt Proofs.ParserComplete Proofs.ParserCompleteStmt.
+From Coq Require Import String ZArith.
 Local Open Scope list_scope.
 Local Open Scope nat_scope.
 Local Notation length := List.length (only parsing).
@@ -10,3 +10,45 @@ Local Notation length := List.length (only parsing).
 Theorem C07_precedence_levels : forall k, op_prec k = documented_level k.
 Proof. exact op_prec_spec. Qed.
 Print Assumptions C07_precedence_levels.
+
+(** For every program of the grammar (Spec/Grammar.v: [gprog] -- binary operators grouped by
+    precedence and to the left, `in` a complete test that any following operator takes as a whole,
+    signs on primaries, one index on a name/literal/call/parenthesis, integer literal row counts,
+    no tabular statement starting with the word let) and every source whose token sequence stands
+    for it (Spec/FlattenStmt.v: [toks_prog] -- every operator with its arguments, names, flags and
+    defaults, statements separated by semicolons, empty statements leaving no trace), parsing
+    succeeds and yields exactly that program, positions included. *)
+Theorem C07_parse_complete : forall s ss, toks_prog ss (scan s) -> gprog ss = true -> parse s = ParseOk ss.
+Proof. exact parse_complete. Qed.
+Print Assumptions C07_parse_complete.
+
+(** the same for any token sequence (the tree depends on the tokens only: white space and comments
+    never reach the parser, and the synonyms where/filter, sort/order, take/limit stand for the same
+    operator in [toks_op]) *)
+Theorem C07_parse_tokens_complete : forall srclen ss ts, toks_prog ss ts -> gprog ss = true -> parse_tokens srclen ts = ParseOk ss.
+Proof. exact parse_tokens_complete. Qed.
+Print Assumptions C07_parse_tokens_complete.
+
+(** expressions: in any position where nothing that could continue the expression follows *)
+Theorem C07_expression_complete : forall srclen e used rest f, toks_expr e used -> gexpr e = true -> follows (-1) rest ->
+  4 * length used + 4 <= f -> p_expr srclen f (used ++ rest) = (Some e, rest, []).
+Proof. exact p_expr_complete. Qed.
+Print Assumptions C07_expression_complete.
+
+(** the grammar is unambiguous: a token sequence stands for at most one program of the grammar,
+    and that is the one the parser returns *)
+Theorem C07_grammar_unambiguous : forall ts ss1 ss2, toks_prog ss1 ts -> toks_prog ss2 ts -> gprog ss1 = true -> gprog ss2 = true -> ss1 = ss2.
+Proof.
+  intros ts ss1 ss2 H1 H2 G1 G2.
+  pose proof (parse_tokens_complete 0 ss1 ts H1 G1) as E1. pose proof (parse_tokens_complete 0 ss2 ts H2 G2) as E2.
+  rewrite E1 in E2. injection E2 as E. exact E.
+Qed.
+Print Assumptions C07_grammar_unambiguous.
+
+(** the hypotheses are satisfiable: a program mixing every precedence level, `in`, signs, an index,
+    a call, sort flags, a join and two statements is accepted, is a program of the grammar, and
+    (soundness) its tokens stand for the returned tree *)
+Example C07_example :
+  exists ss, parse (L "let n = -1; T | where a or b and c == d + e * f in (1, 2) - -g[0] | sort by x asc nulls last, y | join kind=inner (U | take 3) on k, $left.a == $right.b | summarize count(), by k") = ParseOk ss
+    /\ gprog ss = true /\ length ss = 2.
+Proof. eexists. split; [vm_compute; reflexivity|]. split; vm_compute; reflexivity. Qed.
